@@ -57,12 +57,14 @@ class Harness:
         self.Q = pickle.loads(pickle.dumps(U("http://big.example/p?" + "&".join("k%d=v" % i for i in range(34)))))   # a big query (size thresholds)
         # objects whose decoded views need multi-byte UTF-8 decoding (each thread decodes a different object)
         self.D1 = pickle.loads(pickle.dumps(U("http://ü@h.example/%C3%A9.%E2%82%AC?k=%C3%A9#%C3%A4")))
+        # an authority-less URL as derivations hand it out (from_parts is lru-cached: every caller asking for these parts shares this object)
+        self.REL = U("http://h.example/docs/a%20b?x=1").relative()
         self.R1, self.R2 = U("alpha/a.html?x=1"), U("../beta/b.html#frag")   # references resolved against the shared bases
         self.D2 = pickle.loads(pickle.dumps(U("http://%C3%A9@h.example/%F0%9F%98%80?q=%E2%82%AC+x#%C3%BC")))
 
 
 def observe_pool(h):
-    return tuple((n, repr(v)) for u in (h.T, h.B, h.C, h.D1, h.D2, h.Q) for n, v in observe(u))
+    return tuple((n, repr(v)) for u in (h.T, h.B, h.C, h.D1, h.D2, h.Q, h.REL) for n, v in observe(u))
 
 
 BODIES = [
@@ -97,10 +99,15 @@ BODIES = [
                                            str(u.with_scheme("https")), str(u.origin()), str(u.relative())))),
     ("auth_b", lambda h: _twice(h, lambda u: (str(u.with_user(None)), str(u.with_password("p2")), str(u.with_host("::2")), str(u.with_port(None)),
                                            str(u.with_scheme("ws")), str(u.origin()), str(u.relative())))),
+    ("rel_read", lambda h: (h.REL.explicit_port, h.REL.raw_host, h.REL.raw_user, str(h.REL), h.REL.raw_password, h.REL.port)),
+    # three spellings that encode to the very parts of h.REL; only path/query views are read (a thread that went on to read the authority
+    # views would itself repair what it may have broken, which would take a second preemption to expose)
+    ("rel_construct", lambda h: (impl.URL("/docs/a b?x=1").raw_path, impl.URL(" /docs/a b?x=1").raw_query_string, impl.URL("/docs/a%20b?x=1").path,
+                                 impl.URL("http://h.example/docs/a b?x=1").relative().raw_path)),
     ("pickle", lambda h: (str(pickle.loads(pickle.dumps(h.T))), h.C.path, h.C.human_repr())),
 ]
 CACHE_BODIES = {6, 7}
-TWINS = [("path_a", "path_b"), ("query_a", "query_b"), ("auth_a", "auth_b")]
+TWINS = [("path_a", "path_b"), ("query_a", "query_b"), ("auth_a", "auth_b"), ("rel_read", "rel_construct")]
 
 
 def _twice(h, fn):
